@@ -183,6 +183,12 @@ func c18Record(tier string, seed int64, emit func(interface{})) {
 			return roundtrip(codon.GetCodonTable(id).OptimizeTable(randCoding(rng, m, true)), false)
 		}
 		ta, tb := mk(), mk()
+		if sib := c18Siblings(id); len(sib) > 0 && rng.Intn(4) == 0 {
+			// the second organism's table carries another NCBI number with the SAME codon assignment (1 and 11:
+			// only the start codons differ): start and stop codons are the first table's
+			id2 := sib[rng.Intn(len(sib))]
+			tb = roundtrip(codon.GetCodonTable(id2).OptimizeTable(randCoding(rng, 192+rng.Intn(600), true)), false)
+		}
 		designedStops := i == 0 || (tier == "thorough" && i%40 == 0)
 		if designedStops { // each organism ends its genes with another stop codon: every stop codon is rare in one of them
 			id = []int{1, 11}[rng.Intn(2)]
@@ -322,6 +328,27 @@ func safeOptimize(p string, t codon.Table) (dna string, errs string) {
 		return "", "error: " + err.Error()
 	}
 	return d, ""
+}
+
+// c18Siblings: the other default tables with the same codon-to-amino-acid assignment as table id
+func c18Siblings(id int) (out []int) {
+	_, mine, _ := projectTable(codon.GetCodonTable(id))
+	for _, j := range tableIds {
+		if j == id {
+			continue
+		}
+		_, theirs, _ := projectTable(codon.GetCodonTable(j))
+		same := len(mine) == len(theirs)
+		for c, l := range mine {
+			if theirs[c] != l {
+				same = false
+			}
+		}
+		if same {
+			out = append(out, j)
+		}
+	}
+	return out
 }
 
 func init() {
